@@ -266,7 +266,7 @@ def gen_cases(ctx, quick):
 
 
 def build(ctx):
-    binary, log = ctx.build_harness("c06_pca.cpp", name=sp.harness_name("c06_pca"), extra=sp.header_flag())
+    binary, log = ctx.build_harness("c06_pca.cpp", name=sp.harness_name("c06_pca"), flags=sp.FLAGS, extra=sp.header_flag())
     if not binary:
         ctx.broken("harness-build", "harness c06_pca.cpp", "harness does not compile against /repo: " + log[-800:])
     return binary
@@ -310,6 +310,8 @@ def correspond(ctx):
                        "model_c06 against the TRUE sample covariance computed from the raw data; non-trivial = N >= 3 and "
                        "D >= 2; distinct by case text" % (32 if quick else 64, 12 if quick else 30))
     ctx.assumptions += [
+        "harness compiled at -O0 -g1 (ASan+UBSan on) instead of -O1 -g: the all-methods translation unit needs 2-3 min and "
+        "several GB otherwise",
         "eigensolver enters as a contract (IsTopEig); its outputs are certificate-checked per run in exact rationals "
         "(residual, orthonormality <= 2^-30 relative, exact LDL^T inertia for extremality)",
         "IEEE rounding: exact-mode cases (N = 2^m, integer features) demand equality of mean / covariance / hook matrix "
